@@ -366,8 +366,11 @@ def make_case(layouts, files, names_idx, periods, queries):
 def run_group(rec, rng, case, do_membership=True, do_zip=True):
     """One population under several layouts: every query is answered by every layout and
     compared with the model (and thereby with each other)."""
-    layouts = [fm.layout_from_json(j) for j in case["layouts"]]
+    reuse = bool(case.get("reuse_object"))
+    all_json = list(case.get("prev_layouts", [])) + list(case["layouts"])
+    layouts = [fm.layout_from_json(j) for j in all_json]
     files = fm._deser_files(case["files"])
+    fs = None
     periods = [(uniso(a), uniso(b)) for a, b in case["excl"]["periods"]]
     base = scratch_dir("c01")
     answers = {}
@@ -379,13 +382,21 @@ def run_group(rec, rng, case, do_membership=True, do_zip=True):
             names = [by_id[i] for i in case["excl"]["names_idx"] if i in by_id]
             excl = list(names) + list(periods)
             try:
-                fs = fm.make_fileset(root, layout, name="L%d" % li, exclude=excl or None)
+                if reuse and fs is not None:
+                    # object history: the same FileSet is pointed to the next directory layout
+                    fs.path = root.rstrip("/") + "/" + layout.template
+                    rec.count("find.path_reassigned_filesets")
+                else:
+                    fs = fm.make_fileset(root, layout, name="L%d" % li, exclude=excl or None)
             except Exception as exc:
                 rec.violation("find-exception", case, {"where": "constructor",
                                                        "exception": repr(exc),
                                                        "trace": traceback.format_exc()[-1200:]})
+                fs = None
                 continue
-            sub = dict(case, layouts=[case["layouts"][li]])
+            sub = dict(case, layouts=[all_json[li]])
+            if reuse:
+                sub["prev_layouts"] = all_json[:li]
             for qi, q in enumerate(case["queries"]):
                 if q["filters"] and not layout.with_sat:
                     continue
@@ -514,7 +525,10 @@ def gen_group(rng):
         names, periods = gen_exclude(rng, {str(i): f for i, f in regless.items()})
         names_idx = [int(n) for n in names]
     queries = gen_queries(rng, files, layouts[0], rng.choice([8, 16, 24]))
-    return make_case(layouts, files, names_idx, periods, queries)
+    case = make_case(layouts, files, names_idx, periods, queries)
+    if len(layouts) > 1 and not names_idx and rng.random() < 0.5:
+        case["reuse_object"] = True  # one FileSet object, its path reassigned from layout to layout
+    return case
 
 
 def run_shard(spec, rec):
